@@ -1,14 +1,13 @@
 import RdpModel.Lemmas.Input
 import RdpModel.Spec.Strict
+import RdpModel.Wire.Emit
 /-
   The Confirm Active PDU as the client writes it (`write_confirm_active_pdu`, model:
   Wire/Global.lean `confirmActiveBytes`), byte for byte, for every configuration.
 -/
 namespace Rdp.Global
 open Rdp Rdp.Schema
-
-def le16 (v : Nat) : Bytes := encInt .le 2 v
-def le32 (v : Nat) : Bytes := encInt .le 4 v
+open Rdp.Emit (le16 le32)
 
 theorem toVec_general : toVec (generalCaps 0x0415) =
     .ok (le16 1 ++ le16 3 ++ le16 0x0200 ++ le16 0 ++ le16 0 ++ le16 0x0415 ++ le16 0 ++ le16 0 ++ le16 0 ++ [0, 0]) := by
@@ -53,11 +52,11 @@ def bmpBytes (w h : Nat) : Bytes :=
   le16 0x18 ++ le16 1 ++ le16 1 ++ le16 1 ++ le16 w ++ le16 h ++ le16 0 ++ le16 0 ++ le16 1 ++ [0, 0] ++ le16 1 ++ le16 0
 def inpBytes (layout : Nat) : Bytes := le16 0x15 ++ le16 0 ++ le32 layout ++ le32 4 ++ le32 0 ++ le32 12 ++ zeros 64
 
-theorem le16_length (v : Nat) : (le16 v).length = 2 := by simp [le16, encInt_length]
-theorem le32_length (v : Nat) : (le32 v).length = 4 := by simp [le32, encInt_length]
-theorem genBytes_length : genBytes.length = 20 := by simp [genBytes, le16_length]
-theorem bmpBytes_length (w h : Nat) : (bmpBytes w h).length = 24 := by simp [bmpBytes, le16_length]
-theorem inpBytes_length (l : Nat) : (inpBytes l).length = 84 := by simp [inpBytes, le16_length, le32_length, zeros]
+theorem gle16_length (v : Nat) : (le16 v).length = 2 := by simp [le16, encInt_length]
+theorem gle32_length (v : Nat) : (le32 v).length = 4 := by simp [le32, encInt_length]
+theorem genBytes_length : genBytes.length = 20 := by simp [genBytes, gle16_length]
+theorem bmpBytes_length (w h : Nat) : (bmpBytes w h).length = 24 := by simp [bmpBytes, gle16_length]
+theorem inpBytes_length (l : Nat) : (inpBytes l).length = 84 := by simp [inpBytes, gle16_length, gle32_length, zeros]
 
 /-- the twelve capability sets of the client, with the sizes of the nine constant ones -/
 theorem clientCaps_ok (c : GClient) :
@@ -149,7 +148,7 @@ theorem confirmActiveBytes_eq (c : GClient) (hn : c.name.length < 60000) :
   simp only [Outcome.bind_ok]
   have hlen : (caBody c b3 b4 b5 b6 b8 b9 b10 b11 b12).length = c.name.length + 390 := by
     simp only [caBody, capsWire, capWire, List.flatten_cons, List.flatten_nil, List.length_append, List.length_nil,
-      le16_length, le32_length, lg, lb, li, l3, l4, l5, l6, l8, l9, l10, l11, l12]
+      gle16_length, gle32_length, lg, lb, li, l3, l4, l5, l6, l8, l9, l10, l11, l12]
     omega
   rw [toVec_shareControl _ _ _ (by rw [hlen]; omega), hlen]
   rfl
